@@ -45,6 +45,10 @@ def use_repo_sources() -> None:
     if src not in sys.path:
         sys.path.insert(0, src)
     os.environ.setdefault("PYNGUIN_DANGER_AWARE", "1")
+    # child interpreters (pipeline runs, pytest runs) must see the same tree
+    pp = os.environ.get("PYTHONPATH", "")
+    if src not in pp.split(os.pathsep):
+        os.environ["PYTHONPATH"] = src + (os.pathsep + pp if pp else "")
 
 
 def jdump(obj) -> str:
@@ -180,9 +184,11 @@ def run_driver(driver: str, lines: list[str], timeout: int = 1800) -> list[str]:
 # Known findings
 # ---------------------------------------------------------------------------------------------
 def load_known(prop: str) -> list[dict]:
-    p = ROOT / "KNOWN_FINDINGS.jsonl"
+    files = [ROOT / "KNOWN_FINDINGS.jsonl", *sorted((ROOT / "known_findings.d").glob("*.jsonl"))]
     out = []
-    if p.exists():
+    for p in files:
+        if not p.exists():
+            continue
         for line in p.read_text().splitlines():
             line = line.strip()
             if line and not line.startswith("#"):
